@@ -71,12 +71,32 @@ def run(repo: Repo, L: Ledger, tier: str):
     if store is None or proc is None:
         raise AnalysisError("anchors index_fasta_file.store_info / process_seq_buffer vanished")
 
-    _r1(repo, L, idx)
+    roles = _roles(repo, idx, store, proc)
+    _r1(repo, L, idx, roles)
     _r2(repo, L, proc)
-    _r3(repo, L, idx, store)
-    _r4(repo, L, idx, proc)
-    _r5(repo, L, idx, store)
-    _r6(repo, L, idx, store)
+    _r3(repo, L, idx, store, roles)
+    _r4(repo, L, idx, proc, roles)
+    _r5(repo, L, idx, store, roles)
+    _r6(repo, L, idx, store, roles)
+
+
+def _roles(repo, idx, store, proc):
+    """Variable names by role (so that renaming locals does not matter)."""
+    r = {}
+    ctor = [c for c in walk_shallow(store.node) if isinstance(c, ast.Call) and dotted(c.func) == "FastaInfo"]
+    if len(ctor) != 1 or len(ctor[0].args) != 4 or not all(isinstance(a, ast.Name) for a in ctor[0].args[:3]):
+        raise AnalysisError("store_info: FastaInfo(<length>, <offset>, <residues per line>, <line width>) not found")
+    r["ctor"] = ctor[0]
+    r["length"], r["offset"], r["rpl"] = (a.id for a in ctor[0].args[:3])
+    others = names_in(ctor[0].args[3]) - {r["rpl"]}
+    r["line_end"] = next(iter(others)) if len(others) == 1 else None
+    key = [n for n in walk_shallow(store.node) if isinstance(n, ast.Assign) and n.value is ctor[0] and isinstance(n.targets[0], ast.Subscript)]
+    if len(key) != 1:
+        raise AnalysisError("store_info: index entry store not found")
+    r["index"] = norm(key[0].targets[0].value)
+    r["name"] = norm(key[0].targets[0].slice)
+    r["store_stmt"] = key[0]
+    return r
 
 
 # ------------------------------------------------------------------------------ R1
@@ -96,7 +116,7 @@ def _line_loop(idx: Func):
     raise AnalysisError("line loop with header test not found in index_fasta_file")
 
 
-def _r1(repo, L, idx: Func):
+def _r1(repo, L, idx: Func, roles):
     loop, hdr_if = _line_loop(idx)
     line = loop.target.id
     seq_branch = hdr_if.orelse
@@ -182,9 +202,9 @@ def _r1(repo, L, idx: Func):
         L.fail("R1", inst, f"payload '{norm(payload)}' is not the current line minus a suffix determined by that line ({detail})", idx.loc(writes[0]))
 
     # (b) residues per line
-    rpl_sets = [n for s in seq_branch for n in [s, *walk_shallow(s)] if isinstance(n, ast.Assign) and is_name(n.targets[0], "residues_per_line")]
+    rpl_sets = [n for s in seq_branch for n in [s, *walk_shallow(s)] if isinstance(n, ast.Assign) and is_name(n.targets[0], roles["rpl"])]
     if len(rpl_sets) != 1:
-        raise AnalysisError("residues_per_line assignment in the sequence branch not found")
+        raise AnalysisError("assignment of the residues-per-line figure in the sequence branch not found")
     v = rpl_sets[0].value
     inst = f"{idx.short}:residues_per_line"
     ok, why = True, ""
@@ -264,7 +284,7 @@ class _RowExec(SymExec):
         return super().call_default(st, n, fval, args, kwargs, func, depth)
 
 
-def _r3(repo, L, idx, store: Func):
+def _r3(repo, L, idx, store: Func, roles):
     body = store.node.body
     start_i = next((i for i, s in enumerate(body) if isinstance(s, ast.Assign) and isinstance(s.value, ast.Call) and dotted(s.value.func) == "Scaffold"), None)
     if start_i is None:
@@ -273,9 +293,12 @@ def _r3(repo, L, idx, store: Func):
     ex = _RowExec(repo, loop_iters=(0, 1, 2, 3))
     st = State()
     st.env["__func__"] = store
-    st.env["seq_regions"] = Sym("R")
-    st.env["seq_length"] = Lin.atom("N")
-    st.env["name"] = Sym("NAME")
+    loops = [n for n in stmts if isinstance(n, ast.For) and isinstance(n.iter, ast.Name)]
+    if len(loops) != 1:
+        raise AnalysisError("store_info: loop over the run list not found")
+    st.env[loops[0].iter.id] = Sym("R")
+    st.env[roles["length"]] = Lin.atom("N")
+    st.env[roles["name"]] = Sym("NAME")
     outs = [r for r in ex.run_block(stmts, st, store) if r.status == "run"]
     frag = repo.cls("Fragment")
     gap = repo.cls("Gap")
@@ -344,20 +367,43 @@ def _r3(repo, L, idx, store: Func):
 # ------------------------------------------------------------------------------ R4
 
 
-def _r4(repo, L, idx, proc: Func):
+def _r4(repo, L, idx, proc: Func, roles):
     loops = [n for n in proc.node.body if isinstance(n, ast.For)]
     if len(loops) != 1:
         raise AnalysisError("match loop not found in process_seq_buffer")
     lp = loops[0]
     mv = lp.target.id
+    cons = roles["length"]
+    # role discovery inside the loop
+    sv = ev = None
+    for n in walk_shallow(lp):
+        if isinstance(n, ast.Assign) and isinstance(n.targets[0], ast.Name) and isinstance(n.value, ast.BinOp):
+            t = norm(n.value).replace(" ", "")
+            if f"{mv}.start()" in t:
+                sv = n.targets[0].id
+            if f"{mv}.end()" in t:
+                ev = n.targets[0].id
+    if sv is None or ev is None:
+        raise AnalysisError("process_seq_buffer: run offsets (consumed + m.start()/m.end()) not recognised")
+    rev = rsv = regs = None
+    for n in walk_shallow(lp):
+        if isinstance(n, ast.Assign) and isinstance(n.value, ast.Name) and isinstance(n.targets[0], ast.Name):
+            if n.value.id == ev:
+                rev = n.targets[0].id
+            if n.value.id == sv:
+                rsv = n.targets[0].id
+        if isinstance(n, ast.Call) and isinstance(n.func, ast.Attribute) and n.func.attr == "append" and isinstance(n.func.value, ast.Name):
+            regs = n.func.value.id
+    if rev is None or rsv is None or regs is None:
+        raise AnalysisError("process_seq_buffer: open-run variables not recognised")
     ex = SymExec(repo, loop_iters=(0,))
     ex.inline = lambda f: False
     st = State()
     st.env["__func__"] = proc
-    st.env["seq_length"] = Lin.atom("C")
-    st.env["region_start"] = Lin.atom("RS")
-    st.env["region_end"] = Lin.atom("RE")
-    st.env["seq_regions"] = Sym("R")
+    st.env[cons] = Lin.atom("C")
+    st.env[rsv] = Lin.atom("RS")
+    st.env[rev] = Lin.atom("RE")
+    st.env[regs] = Sym("R")
     st.env[mv] = Sym("m")
     outs = ex.run_block(lp.body, st, proc)
     ok, why = True, ""
@@ -366,21 +412,20 @@ def _r4(repo, L, idx, proc: Func):
     for r in outs:
         calls = {e[2][0]: e for e in r.effects if e[0] == "call"}
         # offsets
-        ms = [a for a in as_lin(r.env.get("start", Lin.const(0))).t] if isinstance(r.env.get("start"), Lin) else []
         try:
-            s_, e_ = as_lin(r.env["start"]), as_lin(r.env["end"])
+            s_, e_ = as_lin(r.env[sv]), as_lin(r.env[ev])
         except (KeyError, NotNumeric):
             ok, why = False, "run offsets are not integer forms"
             continue
         s_off = s_ - C
         e_off = e_ - C
-        if not (len(s_off.t) == 1 and "m.start" in str(list(s_off.t)[0]) and s_off.c == 0):
+        if not (len(s_off.t) == 1 and f"{mv}.start" in str(list(s_off.t)[0]) and s_off.c == 0):
             ok, why = False, f"run start is {s_}, expected consumed + m.start()"
-        if not (len(e_off.t) == 1 and "m.end" in str(list(e_off.t)[0]) and e_off.c == 0):
+        if not (len(e_off.t) == 1 and f"{mv}.end" in str(list(e_off.t)[0]) and e_off.c == 0):
             ok, why = False, f"run end is {e_}, expected consumed + m.end()"
         merged = cmp_lin("==", s_, Lin.atom("RE")) in r.pc
         pushes = [e for e in r.effects if e[0] in ("call", "list-mut") and "append" in str(e[2][0] if e[0] == "call" else e[2][1])]
-        re1, rs1 = r.env.get("region_end"), r.env.get("region_start")
+        re1, rs1 = r.env.get(rev), r.env.get(rsv)
         if merged:
             seen.add("merge")
             if not (re1 == e_ and rs1 == Lin.atom("RS") and not pushes):
@@ -405,9 +450,9 @@ def _r4(repo, L, idx, proc: Func):
     L.check(ok, "R4", proc.short + ":runs", "offset arithmetic and merge/push branches", why, proc.loc(lp))
     # consumed advanced after the scan by the buffer length; buffer emptied
     after = proc.node.body[proc.node.body.index(lp) + 1:]
-    adv = [n for n in after if isinstance(n, ast.AugAssign) and is_name(n.target, "seq_length") and isinstance(n.op, ast.Add)]
+    adv = [n for n in after if isinstance(n, ast.AugAssign) and is_name(n.target, cons) and isinstance(n.op, ast.Add)]
     before = proc.node.body[: proc.node.body.index(lp)]
-    adv_before = [n for n in before if isinstance(n, ast.AugAssign | ast.Assign) and any(is_name(t, "seq_length") for t in ([n.target] if isinstance(n, ast.AugAssign) else n.targets))]
+    adv_before = [n for n in before if isinstance(n, ast.AugAssign | ast.Assign) and any(is_name(t, cons) for t in ([n.target] if isinstance(n, ast.AugAssign) else n.targets))]
     bufv = None
     for n in before:
         if isinstance(n, ast.Assign) and isinstance(n.value, ast.Call) and isinstance(n.value.func, ast.Attribute) and n.value.func.attr == "getvalue":
@@ -419,11 +464,12 @@ def _r4(repo, L, idx, proc: Func):
 # ------------------------------------------------------------------------------ R5
 
 
-def _r5(repo, L, idx, store: Func):
+def _r5(repo, L, idx, store: Func, roles):
+    ixd, nmv = roles["index"], roles["name"]
     ok, why = True, ""
     n_store = 0
     for p in paths(store, (0, 1), exc_edges=False):
-        stores = [i for i, e in enumerate(p.events) if e.kind == "stmt" and isinstance(e.node, ast.Assign) and isinstance(e.node.targets[0], ast.Subscript) and "idx_dict" in norm(e.node.targets[0])]
+        stores = [i for i, e in enumerate(p.events) if e.kind == "stmt" and isinstance(e.node, ast.Assign) and isinstance(e.node.targets[0], ast.Subscript) and norm(e.node.targets[0].value) == ixd]
         if not stores:
             continue
         n_store += 1
@@ -432,11 +478,11 @@ def _r5(repo, L, idx, store: Func):
             if e.kind == "cond":
                 for t, v in cond_facts(e.node, e.val):
                     tt = norm(t).replace(" ", "")
-                    if tt in ("idx_dict.get(name)", "nameinidx_dict") and v is False:
+                    if tt in (f"{ixd}.get({nmv})", f"{nmv}in{ixd}") and v is False:
                         tested = True
         if not tested:
             ok, why = False, "an index entry is stored on a path that did not test for an existing entry of the same name: a duplicate record silently replaces the first"
-    dup_raise = any(p.status == "raise" and any(e.kind == "cond" and "idx_dict" in norm(e.node) and e.val for e in p.events) for p in paths(store, (0, 1), exc_edges=False))
+    dup_raise = any(p.status == "raise" and any(e.kind == "cond" and ixd in norm(e.node) and e.val for e in p.events) for p in paths(store, (0, 1), exc_edges=False))
     if not dup_raise:
         ok, why = False, why or "no raising path for a duplicate record name"
     L.check(ok and n_store > 0, "R5", store.short + ":duplicate", "duplicate names raise before the entry is overwritten", why, store.loc())
@@ -445,9 +491,9 @@ def _r5(repo, L, idx, store: Func):
     for p in paths(idx, (0,), exc_edges=False):
         if p.status == "raise":
             for e in p.events:
-                if e.kind == "cond" and norm(e.node) == "idx_dict" and e.val is False:
+                if e.kind == "cond" and norm(e.node) == ixd and e.val is False:
                     ok2 = True
-                if e.kind == "cond" and norm(e.node) == "not idx_dict" and e.val is True:
+                if e.kind == "cond" and norm(e.node) == f"not {ixd}" and e.val is True:
                     ok2 = True
     L.check(ok2, "R5", idx.short + ":empty", "a file yielding no record raises", "a FASTA file without records does not end in an error", idx.loc())
 
@@ -455,7 +501,7 @@ def _r5(repo, L, idx, store: Func):
 # ------------------------------------------------------------------------------ R6
 
 
-def _r6(repo, L, idx, store: Func):
+def _r6(repo, L, idx, store: Func, roles):
     info = repo.cls("FastaInfo")
     init = info.methods.get("__init__")
     params = init.params()[1:]
@@ -463,14 +509,19 @@ def _r6(repo, L, idx, store: Func):
     L.check(params == want, "R6", "FastaInfo.__init__", f"parameters {want}", f"FastaInfo parameters are {params}", init.loc())
     ok = all(any(isinstance(n, ast.Assign) and norm(n.targets[0]) == f"self.{p}" and p in names_in(n.value) and len(names_in(n.value) - {"int"}) == 1 for n in walk_shallow(init.node)) for p in params)
     L.check(ok, "R6", "FastaInfo.__init__:fields", "each parameter stored in its own field", "a FastaInfo field is filled from the wrong parameter", init.loc())
-    # store site
-    ctor = [c for c in walk_shallow(store.node) if isinstance(c, ast.Call) and dotted(c.func) == "FastaInfo"]
-    ok, why = len(ctor) == 1, "FastaInfo construction not found in store_info"
-    if ok:
-        a = [norm(x) for x in ctor[0].args]
-        ok = len(a) == 4 and a[0] == "seq_length" and a[1] == "file_offset" and a[2] == "residues_per_line" and a[3].replace(" ", "") in ("residues_per_line+line_end_bytes", "line_end_bytes+residues_per_line")
-        why = f"index entry built as FastaInfo({', '.join(a)}); expected (residue count, first-residue offset, residues per line, residues per line + terminator width)"
+    # store site: the four arguments by role
+    c0 = roles["ctor"]
+    proc = idx.nested.get("process_seq_buffer")
+    consumed = {n.target.id for n in walk_shallow(proc.node) if isinstance(n, ast.AugAssign) and isinstance(n.target, ast.Name) and isinstance(n.value, ast.Call) and dotted(n.value.func) == "len"}
+    tell = {n.targets[0].id for n in walk_shallow(idx.node) if isinstance(n, ast.Assign) and isinstance(n.targets[0], ast.Name) and isinstance(n.value, ast.Call) and isinstance(n.value.func, ast.Attribute) and n.value.func.attr == "tell"}
+    a3 = norm(c0.args[3]).replace(" ", "")
+    ok = roles["length"] in consumed and roles["offset"] in tell and roles["line_end"] is not None and a3 in (f"{roles['rpl']}+{roles['line_end']}", f"{roles['line_end']}+{roles['rpl']}")
+    why = f"index entry built as FastaInfo({', '.join(norm(x) for x in c0.args)}); expected (residue count, offset from tell() after the header, residues per line, residues per line + terminator width)"
     L.check(ok, "R6", store.short + ":entry", "(length, offset, linebases, linebases + terminator)", why, store.loc())
+    # the terminator width is detected from the header line (1 or 2 bytes)
+    le = [n for n in walk_shallow(idx.node) if isinstance(n, ast.Assign) and roles["line_end"] and is_name(n.targets[0], roles["line_end"]) and not (isinstance(n.value, ast.Constant) and n.value.value is None)]
+    okle = len(le) == 1 and isinstance(le[0].value, ast.IfExp) and try_fold(le[0].value.body, default=None) == 2 and try_fold(le[0].value.orelse, default=None) == 1 and "13" in norm(le[0].value.test)
+    L.check(okle, "R6", idx.short + ":terminator-width", "2 for CRLF, else 1", f"terminator width computed as '{norm(le[0].value) if le else None}'", idx.loc())
     # fai_row
     fr = info.methods.get("fai_row")
     ok, why = False, "fai_row structure not recognised"
